@@ -66,13 +66,19 @@ theorem shift_wf (h : b.WF) : (b.shift k).WF where
     obtain ⟨m, hm, rfl⟩ := mem_nodes3_shift hn
     have := h.ids m hm
     simp; omega
-  single := by
-    intro e₁ h₁ e₂ h₂ ho
-    simp only [shift_edges, List.mem_map] at h₁ h₂
-    obtain ⟨a, ha, rfl⟩ := h₁
-    obtain ⟨c, hc, rfl⟩ := h₂
-    simp only [BEdge.shift] at ho
-    rw [h.single a ha c hc (BNode.shift_inj ho)]
+  outs := by
+    have hmap : ∀ (es : List BEdge), (es.map (·.out)).Nodup → ((es.map (·.shift k)).map (·.out)).Nodup := by
+      intro es
+      induction es with
+      | nil => intro _; exact List.nodup_nil
+      | cons e es ih =>
+        simp only [List.map_cons, List.nodup_cons, List.mem_map, not_exists, not_and]
+        intro h
+        refine ⟨?_, ih h.2⟩
+        rintro x ⟨y, hy, rfl⟩ ho
+        simp only [BEdge.shift] at ho
+        exact h.1 y hy (BNode.shift_inj ho)
+    exact hmap b.edges h.outs
   inLeaf := by
     intro n hn e he ho
     simp only [shift_inputs, shift_edges, List.mem_map] at hn he
